@@ -19,26 +19,15 @@ for the states the handler actually reaches:
   * `tracked_limits_only_restrict` — the 20 000 / 25 000 tracked-packet limits can only replace an answer by
     SendNone, or new data (SendAny / SendPacingLimited) by SendAck.
 
-Helper lemmas: Uquic/Proofs/AmpRefineFrame.lean (`PtoOK`: ptoMode is only ever SendNone or a PTO mode).
+Property theorems only.  Helper lemmas and the vocabulary of the statements: Uquic/Proofs/AmpRefineFrame.lean
+(`PtoOK`: ptoMode is only ever SendNone or a PTO mode) and Uquic/Proofs/AmpRefineGate.lean (`numTracked`,
+`Restrictive`, `MoreRestrictive`, `sendModeNoLimits`, `modeCode`, `ptoOf`).
 -/
 import Uquic.Props.C06
-import Uquic.Proofs.AmpRefineFrame
-import Uquic.Model.Cong.Sender
+import Uquic.Proofs.AmpRefineGate
 
 namespace Uquic.Props.C06Compose
 open Uquic.Model.Sent Uquic.Proofs.Sent Uquic.Proofs.AmpRefine Uquic.Props.C06
-
-/-- `numTrackedPackets` of `SendMode` -/
-def numTracked (s : State) : Int := s.app.hist.len + optLen s.initial + optLen s.handshake
-
-/-- the five answers that do not release new data -/
-def Restrictive (m : Int) : Prop :=
-  m = sendNone ∨ m = sendAck ∨ m = sendPTOInitial ∨ m = sendPTOHandshake ∨ m = sendPTOAppData
-
-theorem codes_distinct : sendAny ≠ sendNone ∧ sendAny ≠ sendAck ∧ sendAny ≠ sendPTOInitial ∧ sendAny ≠ sendPTOHandshake ∧
-    sendAny ≠ sendPTOAppData ∧ sendPacingLimited ≠ sendNone ∧ sendPacingLimited ≠ sendAck ∧
-    sendPacingLimited ≠ sendPTOInitial ∧ sendPacingLimited ≠ sendPTOHandshake ∧ sendPacingLimited ≠ sendPTOAppData ∧
-    sendAny ≠ sendPacingLimited := by decide
 
 /-- complete case analysis of `SendMode` in a state with a legal `ptoMode`: the answer releases new data
     (SendAny / SendPacingLimited) exactly when all gates are open, and is restrictive otherwise -/
@@ -83,13 +72,6 @@ theorem sendMode_cases (s : State) (hp : PtoOK s) (cs pb : Bool) :
               rw [if_neg (show ¬ (!true) = true by decide)]
               exact ⟨Or.inl rfl, h1', by omega, by omega, rfl, ⟨fun _ => rfl, fun _ => rfl⟩⟩
 
-theorem restrictive_not_new_data {m : Int} (h : Restrictive m) : ¬ (m = sendAny ∨ m = sendPacingLimited) := by
-  obtain ⟨d1, d2, d3, d4, d5, d6, d7, d8, d9, d10, _⟩ := codes_distinct
-  rcases h with h | h | h | h | h <;> subst h <;> intro hc <;> rcases hc with hc | hc <;>
-    first
-    | exact d1 hc.symm | exact d2 hc.symm | exact d3 hc.symm | exact d4 hc.symm | exact d5 hc.symm
-    | exact d6 hc.symm | exact d7 hc.symm | exact d8 hc.symm | exact d9 hc.symm | exact d10 hc.symm
-
 /-! ## 1. gating over the full model -/
 
 /-- `send_gating_full`.  Let `s` be the state reached by ANY history of the full handler model from a fresh
@@ -115,6 +97,17 @@ theorem send_gating_full (pn : PN) (val client : Bool) (nts : PN) (ops : List (O
   rcases sendMode_cases s hp (cc s.bytesInFlight) pb with ⟨h0, h1, h2, h3, h4, h5⟩ | ⟨h0, _⟩
   · exact ⟨fun _ => ⟨h4, h3, h1, h2, h5⟩, fun hn => absurd h0 hn⟩
   · exact ⟨fun hm => absurd hm (restrictive_not_new_data h0), fun _ => h0⟩
+
+/-- `pto_mode_legal`: in every state reached by any history (whatever its outcome), `ptoMode` holds SendNone or
+one of the three PTO modes — C20's `send_gating` hypothesis `hpto` ("ptoMode is only ever SendNone or a PTO
+mode in sent_packet_handler.go", there justified by reading the code) is an invariant of the full model — and
+it is faithfully represented in C20's enumeration. -/
+theorem pto_mode_legal (pn : PN) (val client : Bool) (nts : PN) (ops : List (Op × StepEnv)) :
+    let s := ((State.new pn val client nts).run ops).s
+    PtoOK s ∧ ptoOf s.ptoMode ≠ .any ∧ ptoOf s.ptoMode ≠ .pacingLimited ∧ modeCode (ptoOf s.ptoMode) = s.ptoMode := by
+  intro s
+  have hp : PtoOK s := run_ptoOK ops _ (new_ptoOK pn val client nts)
+  exact ⟨hp, (ptoOf_not_new_data _).1, (ptoOf_not_new_data _).2, modeCode_ptoOf hp⟩
 
 /-- `send_gating_full_in_flight`.  … and after every history that obeys C06's caller contract and completed
 normally, the `bytesInFlight` the window is consulted with is exactly the total size of the tracked packets
@@ -153,40 +146,6 @@ example : let r := (State.new 0 false true 300).run gOps
       (.timeout 400000000, wEnv)]).s.sendMode true true = sendPTOInitial := by decide
 
 /-! ## 2. with C20's congestion-controller model -/
-
-open Uquic.Model in
-/-- numeric code of C20's `SendMode` enumeration -/
-def modeCode : Cong.SendMode → Int
-  | .none => sendNone
-  | .ack => sendAck
-  | .ptoInitial => sendPTOInitial
-  | .ptoHandshake => sendPTOHandshake
-  | .ptoAppData => sendPTOAppData
-  | .pacingLimited => sendPacingLimited
-  | .any => sendAny
-
-open Uquic.Model in
-/-- `h.ptoMode` as a value of C20's enumeration -/
-def ptoOf (c : Int) : Cong.SendMode :=
-  if c = sendPTOInitial then .ptoInitial
-  else if c = sendPTOHandshake then .ptoHandshake
-  else if c = sendPTOAppData then .ptoAppData
-  else .none
-
-/-- C20's hypothesis `hpto` on the `ptoMode` argument holds for the handler's `ptoMode` -/
-theorem ptoOf_not_new_data (c : Int) : ptoOf c ≠ .any ∧ ptoOf c ≠ .pacingLimited := by
-  unfold ptoOf
-  constructor <;> (repeat' split) <;> simp
-
-theorem modeCode_ptoOf {s : State} (hp : PtoOK s) : modeCode (ptoOf s.ptoMode) = s.ptoMode := by
-  rcases hp with h | h | h | h <;> rw [h] <;> decide
-
-theorem numTracked_nonneg (s : State) : 0 ≤ numTracked s := by
-  have h1 : ∀ o, 0 ≤ optLen o := by
-    intro o; cases o <;> simp only [optLen, Hist.len] <;> omega
-  have := h1 s.initial
-  have := h1 s.handshake
-  simp only [numTracked, Hist.len]; omega
 
 open Uquic.Model in
 /-- `sendMode_is_C20_decision`: in every state with a legal `ptoMode` (every reachable state), the full
@@ -271,18 +230,6 @@ example : let s := ((State.new 0 false true 300).run gOps).s
 
 /-! ## 3. the tracked-packet limits only restrict -/
 
-/-- `SendMode` without the two `numTrackedPackets` tests -/
-def sendModeNoLimits (s : State) (canSend pacingBudget : Bool) : Int :=
-  if s.isAmplificationLimited then sendNone
-  else if s.numProbesToSend > 0 then s.ptoMode
-  else if !canSend then sendAck
-  else if !pacingBudget then sendPacingLimited
-  else sendAny
-
-/-- `a` is at most as permissive as `b`: the same answer, or SendNone, or ACK-only where `b` releases new data -/
-def MoreRestrictive (a b : Int) : Prop :=
-  a = b ∨ a = sendNone ∨ (a = sendAck ∧ (b = sendAny ∨ b = sendPacingLimited))
-
 /-- the limits as regenerated from internal/protocol/params.go: MaxOutstandingSentPackets = 2 ·
 MaxCongestionWindowPackets = 20 000 < MaxTrackedSentPackets = 25 000 (the "must be larger" of the source
 comment) -/
@@ -344,21 +291,6 @@ theorem tracked_limits_only_restrict (s : State) (cs pb : Bool) :
               exact ⟨Or.inr (Or.inr ⟨rfl, Or.inl rfl⟩), fun h => by omega, fun _ _ => by rw [if_pos (Or.inl rfl), if_neg h3], fun h => by omega⟩
           · rw [if_neg h5]
             exact ⟨Or.inl rfl, fun _ => rfl, fun h => by omega, fun h => by omega⟩
-
-/-- a validated handler tracking `n` packet-number slots in the application-data space -/
-def trackedState (n : Nat) (probes : Int) : State :=
-  { peerValidated := true, app := { hist := { packets := List.replicate n none } },
-    numProbesToSend := probes, ptoMode := sendPTOAppData }
-
-theorem trackedState_sendMode (n : Nat) (probes : Int) (cs pb : Bool) :
-    (trackedState n probes).sendMode cs pb =
-      if (n : Int) ≥ maxTrackedSentPackets then sendNone
-      else if probes > 0 then sendPTOAppData
-      else if !cs then sendAck
-      else if (n : Int) ≥ maxOutstandingSentPackets then sendAck
-      else if !pb then sendPacingLimited
-      else sendAny := by
-  simp [State.sendMode, trackedState, State.isAmplificationLimited, Hist.len, optLen]
 
 /-- the limit branches are reachable in the model: with 20 000 tracked packet-number slots the answer drops
 from SendAny to SendAck, with 25 000 to SendNone; a pending PTO probe is still allowed at 20 000 -/
